@@ -1,0 +1,45 @@
+//go:build verif
+
+// Contracts for the govc verifier (comment-only; see /verif/DESIGN.md).
+// This file contains no code. It is read as text by /verif/bin/govc.
+
+package rac
+
+//@ default mode int
+
+//@ spec wf(b *writeBuffer) bool = b != nil && 0 <= b.p && b.p <= len(b.prev)
+//@ spec vlen(b *writeBuffer) int = (len(b.prev) - b.p) + len(b.curr)
+//@ spec view(b *writeBuffer, k int) byte = ite(k < len(b.prev)-b.p, b.prev[b.p+k], b.curr[k-(len(b.prev)-b.p)])
+
+//@ func (*writeBuffer).length
+//@   prop C13
+//@   requires wf(b)
+//@   ensures math(result) == math(vlen(b))
+
+//@ func (*writeBuffer).extend
+//@   prop C13
+//@   requires wf(b) && len(b.curr) == 0
+//@   ensures wf(b) && sameslice(b.curr, curr)
+//@   modifies b.curr
+
+//@ func (*writeBuffer).advance
+//@   prop C13
+//@   requires wf(b) && math(n) <= math(vlen(b))
+//@   ensures wf(b) && math(vlen(b)) == math(old(vlen(b))) - math(n)
+//@   ensures forall(k, 0, vlen(b), view(b, k) == old(view(b, k + int(n))))
+//@   modifies b.p, b.curr
+
+//@ func (*writeBuffer).advancePastLeadingZeroes
+//@   prop C13
+//@   requires wf(b)
+//@   ensures wf(b) && math(n) <= math(old(vlen(b))) && math(vlen(b)) == math(old(vlen(b))) - math(n)
+//@   ensures[zeroes] forall(k, 0, int(n), old(view(b, k)) == 0)
+//@   ensures[rest] forall(k, 0, vlen(b), view(b, k) == old(view(b, k + int(n))))
+//@   modifies b.p, b.curr
+//@   loop 1 invariant wf(b) && b.p <= i && i <= len(b.prev) && forall(k, b.p, i, b.prev[k] == 0)
+//@   loop 1 invariant unchanged(b.p) && unchanged(b.curr) && unchanged(b.prev)
+//@   loop 1 decreases len(b.prev) - i
+//@   loop 2 invariant 0 <= i && i <= len(b.curr) && forall(k, 0, i, b.curr[k] == 0)
+//@   loop 2 invariant wf(b) && unchanged(b.curr) && unchanged(b.prev) && b.p == len(b.prev) && math(n) == math(len(b.prev)) - math(old(b.p))
+//@   loop 2 invariant forall(k, old(b.p), len(b.prev), b.prev[k] == 0)
+//@   loop 2 decreases len(b.curr) - i
